@@ -5,6 +5,13 @@ VERIF = os.path.dirname(os.path.dirname(os.path.abspath(__file__)))
 PENDING = "check not built yet in this session (planned, see DESIGN.md section 9); not a statement that the technique cannot apply"
 
 CLAIMED = {
+    "C01": dict(
+        category="proof",
+        text="The links of write-then-read are under contract and discharged: model -> tree (body of the to_etree loop with a symbolic attribute, _listAppend, ungroom of every class that overrides it), element value <-> text for every element type (writer contracts, write-then-read contracts), tree -> model (fold step of _convert with a symbolic child). The links bytes <-> tree and header are the contracts of C02, C05, C12, and the per-class constructor route is C03/C04: assumed here, discharged there. The end-to-end statement over every class, varied values (markup characters, non-ASCII, time zones, milliseconds, negative and fractional decimals), all six wire forms and the header versions is decided by a BOUNDED run through the real serialize / parse / convert, and the four body writers are checked against the strict reference tokenizer on all small trees (bounded).",
+        design_ref="DESIGN.md 9 (C01)",
+        note="The composition of the links into the end-to-end statement is stated in DESIGN.md, not mechanised. ET.tostring(method='html') is trusted (standard library). tostring_unclosed_elements and indent have no discharged contract yet: bounded only. Carve-outs are listed known findings (empty aggregate without end tags; TAX1099INT_V100 list adjacency; strings spelling an entity; decimals whose str() has an exponent).",
+        technique="contracts on to_etree/_listAppend/ungroom/update_args and on every converter pair (pyvc + z3); bounded end-to-end round trips and writer-vs-reference-tokenizer enumeration",
+        engine="pyvc"),
     "C20": dict(
         category="proof",
         text="Every obligation generated from the current source of the seven check-digit functions in ofxtools/utils.py is discharged by SMT for all inputs of the stated alphabets: computed check digit == published algorithm (spec functions written from the algorithm), validate_* iff, converters produce validating ISINs embedding the original, wrong length / unknown prefix / changed check character never validate. Loop-free after unrolling over the fixed identifier lengths, all characters symbolic, so the proof is complete for these domains, not bounded.",
@@ -123,6 +130,13 @@ CLAIMED = {
         design_ref="DESIGN.md 9 (C19)",
         note="Callees of the commands (date conversion, password, client) are abstract recorders in the proofs. Lists longer than 3 by uniformity of the comprehensions (stated). --all is bounded only: sampled account-information responses and 184 configured patterns (729 thorough). One defect repaired (crash when no account of a kind is ACTIVE); known finding KF-C19-all-configured-inactive.",
         technique="map/concat postconditions on the real command functions with abstract callees (pyvc + z3); bounded runs of the discovery path",
+        engine="pyvc"),
+    "C17": dict(
+        category="proof",
+        text="Frames: every converter function (convert/unconvert of every element type, all date-time layouts) is proved to write no field of the shared descriptor or of any argument on any path, returning or raising; Element.__set__ writes obj.__dict__[name] and nothing else; groom (base, MFINFO, STOCKINFO, MAIL) writes nothing its caller owns, proved over an ownership-tracked element model with symbolic tags; the fold of _convert and the loop body of to_etree leave the element tree / the model unwritten (composition rule stated in props/c17.py). History: a census of every syntactic site that can store state outliving a call (module globals, class attributes, descriptor fields, default arguments, memo decorators, writes through parameters) in the parse/convert/serialize modules must equal the committed allow-list, each admitted site with its reason; the one dispatch-registry re-registration is covered by the proof that unconvert's outcome does not depend on the instance bound. Bounded: real instances of the model classes with broken variants and whole documents, each call twice, three orders with failing items interleaved, 8 threads.",
+        design_ref="DESIGN.md 9 (C17)",
+        note="Thread schedules are NOT decided by this technique: the contracts are sequential; the threaded run is a bounded smoke test over the schedules the OS happens to produce. ElementTree's Element is modelled (list-of-children record, deepcopy/copy semantics) - trusted. The census is syntactic: aliasing through containers or calls it cannot see is not covered; it over-approximates parameters (flow-insensitive).",
+        technique="frame obligations on the real functions (pyvc + z3, native replay with before/after snapshots); ownership model for element trees; syntactic state census against an allow-list; bounded history/thread runs",
         engine="pyvc"),
     "C18": dict(
         category="proof",
